@@ -667,6 +667,300 @@ def replay_e4(prop, path):
     return 0
 
 
+# ----------------------------------------------------------------------------------------- E2 lock engine (C15, C16)
+SKIP_FNS = {"item_name", "xml_path", "add_to_file_restricted"}
+
+def site_functions():
+    """source line -> name of the enclosing function, for the files of the crate (decides what a failed timed acquisition does)"""
+    import re
+    m = {}
+    base = os.path.join(REPO, "autosar-data", "src")
+    for fn in os.listdir(base):
+        if not fn.endswith(".rs"):
+            continue
+        cur = "?"
+        for i, line in enumerate(open(os.path.join(base, fn)), 1):
+            mm = re.match(r"\s*(?:pub(?:\(crate\))?\s+)?fn\s+([a-zA-Z0-9_]+)", line)
+            if mm:
+                cur = mm.group(1)
+            m["%s:%d" % (fn, i)] = cur
+    return m
+
+
+def e2_programs(run):
+    sh([VH, "conc-record", "--out", os.path.join(run, "progs.ndjson")], timeout=600)
+    fns = site_functions()
+    progs = {}
+    for l in open(os.path.join(run, "progs.ndjson")):
+        d = json.loads(l)
+        steps = []
+        for e in d["prog"]:
+            if e["a"] == "acq":
+                f = "noop" if not e["ok"] else ("skip" if fns.get(e["site"], "?") in SKIP_FNS else "abort")
+                steps.append({"a": "acq", "l": e["l"], "m": e["m"], "k": e["k"], "f": f, "s": e["site"]})
+            else:
+                steps.append({"a": "rel", "l": e["l"], "m": e["m"], "k": "block", "f": "abort", "s": ""})
+        # releases that belong to a failed (noop) acquisition do not exist; nothing to drop
+        progs[d["op"]] = {"res": d["res"], "steps": steps}
+    return progs
+
+
+def e2_pairs(progs, maxlen=400):
+    names = sorted(progs)
+    pairs = []
+    for i, a in enumerate(names):
+        for b in names[i:]:
+            la = {s["l"] for s in progs[a]["steps"] if not s["l"].startswith("N")}
+            lb = {s["l"] for s in progs[b]["steps"] if not s["l"].startswith("N")}
+            shared = la & lb
+            if not shared:
+                continue
+            wa = any(s["m"] == "W" and s["l"] in shared for s in progs[a]["steps"])
+            wb = any(s["m"] == "W" and s["l"] in shared for s in progs[b]["steps"])
+            if not (wa or wb):
+                continue
+            pa = [s for s in progs[a]["steps"] if s["l"] in shared]
+            pb = [s for s in progs[b]["steps"] if s["l"] in shared]
+            if len(pa) * len(pb) > maxlen * maxlen:
+                continue
+            pairs.append({"a": a, "b": b, "locks": sorted(shared), "p": [pa, pb]})
+    return pairs
+
+
+def check_e2(prop, tier):
+    import json2tla
+    t0 = time.time()
+    build()
+    run = os.path.join(WORK, "E2-" + tier)
+    shutil.rmtree(run, ignore_errors=True)
+    shutil.copytree(os.path.join(ROOT, "spec", "locks"), run)
+    tool_errors = []
+    progs = e2_programs(run)
+    pairs = e2_pairs(progs)
+    json.dump(pairs, open(os.path.join(run, "pairs.json"), "w"))
+    open(os.path.join(run, "LockData.tla"), "w").write(json2tla.module("LockData", "Pairs", pairs))
+    g = run_tlc(run, "LockMC.tla", "lockmc.cfg", 16, 3000, heap="16g")
+    if g["rc"] != 0 or g["distinct"] < 10:
+        tool_errors.append("LockMC rc=%s %s" % (g["rc"], g["errors"][:3]))
+    stuck = {}
+    for tl in g["tagged"]:
+        tag, rest = decode_tagged(tl)
+        if tag == "STUCK":
+            s = json.loads(rest[0])
+            key = (s["a"], s["b"], s["s1"], s["s2"])
+            if key not in stuck or len(s["sched"]) < len(stuck[key]["sched"]):
+                stuck[key] = s
+    res = {"pairs": len(pairs), "states": g["distinct"], "transitions": g["generated"], "stuck_candidates": len(stuck), "tool_errors": tool_errors}
+    return res, stuck, pairs, run
+
+
+def e2_run(tier):
+    key = tree_hash("E2|%s|%d" % (tier, seed()))
+    cache = os.path.join(WORK, "cache", "E2-%s.json" % key)
+    if os.path.exists(cache):
+        log("[E2] reusing engine run %s" % key)
+        return json.load(open(cache))
+    import random
+    t0 = time.time()
+    res, stuck, pairs, run = check_e2("C15", tier)
+    fns = site_functions()
+    rnd = random.Random(seed())
+    # ---- C15: one confirmation run per (pair of blocked functions) class (thorough: up to 5)
+    classes = {}
+    for key2, s in stuck.items():
+        cls = tuple(sorted([fns.get(s["s1"], s["s1"]), fns.get(s["s2"], s["s2"])]))
+        classes.setdefault(cls, []).append(s)
+    per = 1 if tier == "quick" else 5
+    cand = []
+    for cls, lst in sorted(classes.items()):
+        lst = sorted(lst, key=lambda s: len(s["sched"]))
+        for s in lst[:per]:
+            cand.append({"id": "cand:%s|%s" % cls, "cls": list(cls), "ops": [s["a"], s["b"]], "schedule": s["sched"], "gate": pairs[s["pair"] - 1]["locks"]})
+    # plus seeded random schedules over conflicting pairs (no model behind them: real threads, real locks)
+    nrand = 40 if tier == "quick" else 600
+    for i in range(nrand):
+        p = rnd.choice(pairs)
+        n = len(p["p"][0]) + len(p["p"][1])
+        sc = [rnd.choice([1, 2]) for _ in range(n)]
+        cand.append({"id": "rand:%d" % i, "cls": [], "ops": [p["a"], p["b"]], "schedule": sc, "gate": p["locks"]})
+    cin = os.path.join(run, "c15_in.ndjson")
+    with open(cin, "w") as f:
+        for c in cand:
+            f.write(json.dumps(c) + "\n")
+    # the deadlocked runs leak their threads: run in chunks in separate processes
+    outs = []
+    chunk = 25
+    lines = open(cin).read().splitlines()
+    def runchunk(ci):
+        a = os.path.join(run, "c15_in_%d.ndjson" % ci)
+        b = os.path.join(run, "c15_out_%d.ndjson" % ci)
+        open(a, "w").write("\n".join(lines[ci * chunk:(ci + 1) * chunk]) + "\n")
+        r = sh([VH, "conc-sched", "--in", a, "--out", b], timeout=3600, check=False)
+        return b if r.returncode == 0 else None
+    from concurrent.futures import ThreadPoolExecutor
+    with ThreadPoolExecutor(max_workers=6) as ex:
+        bs = list(ex.map(runchunk, range((len(lines) + chunk - 1) // chunk)))
+    dead = []
+    nruns = 0
+    for b in bs:
+        if b is None:
+            res["tool_errors"].append("conc-sched chunk failed")
+            continue
+        for l in open(b):
+            d = json.loads(l)
+            nruns += 1
+            c = d["conc"]
+            if c.get("stalled"):
+                res["stalled_runs"] = res.get("stalled_runs", 0) + 1
+                continue
+            if c["deadlock"]:
+                sites = sorted(x.get("blocked_at", x.get("at", "")) for x in c["blocked"])
+                cls = sorted(fns.get(s, s) for s in sites)
+                dead.append({"id": d["id"], "ops": c["ops"], "schedule": c["schedule"], "sites": sites, "cls": cls})
+    res["c15"] = {"classes": len(classes), "confirm_runs": nruns, "deadlocks": dead}
+    # ---- C16: one-preemption schedules of every conflicting pair, judged by TLC against the sequential oracle
+    stride = 4 if tier == "quick" else 1
+    open(os.path.join(run, "conc_gen.cfg"), "w").write("SPECIFICATION Spec\nCHECK_DEADLOCK FALSE\nCONSTANTS\n  Mode = \"gen\"\n  Stride = %d\n" % stride)
+    open(os.path.join(run, "conc_judge.cfg"), "w").write("SPECIFICATION Spec\nCHECK_DEADLOCK FALSE\nCONSTANTS\n  Mode = \"judge\"\n  Stride = 1\n")
+    sin = os.path.join(run, "c16_gen.ndjson")
+    g = tlc_lines(run, "Conc.tla", "conc_gen.cfg", "I", sin, workers=8)
+    if g["rc"] != 0 or g["n"] == 0:
+        res["tool_errors"].append("Conc gen rc=%s n=%s %s" % (g["rc"], g["n"], g["errors"][:2]))
+    allsched = [json.loads(l) for l in open(sin)]
+    # pairs that are already known to deadlock are left to C15
+    deadpairs = {tuple(d["ops"]) for d in dead}
+    allsched = [s for s in allsched if (s["a"], s["b"]) not in deadpairs]
+    cap = 1500 if tier == "quick" else 40000
+    if len(allsched) > cap:
+        rnd.shuffle(allsched)
+        allsched = allsched[:cap]
+    lines2 = [json.dumps({"id": "%s|%s|%d|%d" % (s["a"], s["b"], s["first"], s["k"]), "ops": [s["a"], s["b"]], "schedule": s["sched"], "gate": pairs[s["pair"] - 1]["locks"]}) for s in allsched]
+    chunk2 = 100
+    def runchunk2(ci):
+        a = os.path.join(run, "c16_in_%d.ndjson" % ci)
+        b = os.path.join(run, "c16_out_%d.ndjson" % ci)
+        open(a, "w").write("\n".join(lines2[ci * chunk2:(ci + 1) * chunk2]) + "\n")
+        r = sh([VH, "conc-sched", "--in", a, "--out", b], timeout=3600, check=False)
+        return b if r.returncode == 0 else None
+    with ThreadPoolExecutor(max_workers=6) as ex:
+        bs2 = list(ex.map(runchunk2, range((len(lines2) + chunk2 - 1) // chunk2)))
+    allout = os.path.join(run, "c16_out.ndjson")
+    n16 = 0
+    late_dead = 0
+    with open(allout, "w") as fo:
+        for b in bs2:
+            if b is None:
+                res["tool_errors"].append("conc-sched (C16) chunk failed")
+                continue
+            for l in open(b):
+                d = json.loads(l)
+                if d["conc"].get("stalled"):
+                    res["stalled_runs"] = res.get("stalled_runs", 0) + 1
+                    continue
+                if d["conc"]["deadlock"]:
+                    late_dead += 1
+                    c = d["conc"]
+                    sites = sorted(x.get("blocked_at", x.get("at", "")) for x in c["blocked"])
+                    dead.append({"id": d["id"], "ops": c["ops"], "schedule": c["schedule"], "sites": sites, "cls": sorted(fns.get(s, s) for s in sites)})
+                    continue
+                # canon as a string keeps the judge cheap
+                d["conc"]["canon"] = json.dumps(d["conc"]["canon"], sort_keys=True)
+                for s in d["seq"]:
+                    s["canon"] = json.dumps(s["canon"], sort_keys=True)
+                fo.write(json.dumps(d) + "\n")
+                n16 += 1
+    j = run_tlc(run, "Conc.tla", "conc_judge.cfg", 1, 3600, env={"RESULTS": allout}, tag="_judge", heap="12g")
+    if j["rc"] != 0:
+        res["tool_errors"].append("Conc judge rc=%s %s" % (j["rc"], j["errors"][:2]))
+    res["c16"] = {"runs": n16, "schedules_generated": g["n"], "deadlocked_runs": late_dead,
+                  "verdicts": [json.loads(decode_tagged(l)[1][0]) for l in j["tagged"] if l.startswith('<<"V"')]}
+    res["wall"] = time.time() - t0
+    os.makedirs(os.path.dirname(cache), exist_ok=True)
+    json.dump(res, open(cache, "w"))
+    return res
+
+
+def check_c15(tier):
+    t0 = time.time()
+    res = e2_run(tier)
+    kf = [f for f in known_findings().get("findings", []) if f.get("engine") == "E2" and f.get("property") == "C15"]
+    viol = 0
+    known = {}
+    seen = set()
+    for d in res["c15"]["deadlocks"]:
+        cls = tuple(d["cls"])
+        hit = [f for f in kf if tuple(sorted(f["functions"])) == cls]
+        if hit:
+            known[hit[0]["id"]] = hit[0]
+            continue
+        if cls in seen:
+            continue
+        seen.add(cls)
+        viol += 1
+        dd = os.path.join(WORK, "replays")
+        os.makedirs(dd, exist_ok=True)
+        path = os.path.join(dd, "C15-%d.json" % viol)
+        json.dump(dict(d, property="C15", engine="E2"), open(path, "w"))
+        print("VIOLATION property=C15 replay=%s" % path)
+        log("   %s || %s: both threads blocked forever at %s (functions %s)" % (d["ops"][0], d["ops"][1], d["sites"], list(cls)))
+    for fid, f in known.items():
+        print("KNOWN-FINDING: property=C15 %s" % f["what"])
+    ev = {"property_id": "C15", "tier": tier, "seed": seed(), "level": "model_checking",
+          "coverage": {"states": max(1, res["states"]), "transitions": max(1, res["transitions"]), "traces_validated_against_impl": res["c15"]["confirm_runs"],
+                       "samples": [{"ops": d["ops"], "blocked_at": d["sites"]} for d in res["c15"]["deadlocks"][:4]] or ["no deadlock"],
+                       "operation_pairs": res["pairs"], "stuck_states_distinct_sites": res["stuck_candidates"], "deadlock_classes_on_model": res["c15"]["classes"],
+                       "deadlocks_confirmed_on_real_threads": len(res["c15"]["deadlocks"]), "known_findings_hit": sorted(known.keys()), "exhaustive": True,
+                       "explanation": "lock programs recorded from the current tree for 36 operations; every interleaving of every conflicting pair explored by TLC under the parking_lot reader-writer semantics (spec/locks/LockMC.tla); each class of stuck state is replayed with its witness schedule on real threads with the lock shim gating every event of the shared locks; seeded random schedules in addition"},
+          "assumptions": ["the lock semantics of LockMC.tla (task-fair parking_lot RwLock)", "failure behaviour of timed acquisitions by enclosing function (abort / skip table)", "deadlock = every unfinished thread inside an untimed acquisition for 1.5 s without any lock event"],
+          "wall_s": round(time.time() - t0, 2), "violations": viol}
+    os.makedirs(EVID, exist_ok=True)
+    json.dump(ev, open(os.path.join(EVID, "C15.json"), "w"), indent=1)
+    if res["tool_errors"]:
+        log("TOOL ERRORS: " + "; ".join(res["tool_errors"][:5]))
+        return 1 if viol else 2
+    return 1 if viol else 0
+
+
+def check_c16(tier):
+    t0 = time.time()
+    res = e2_run(tier)
+    kf = [f for f in known_findings().get("findings", []) if f.get("engine") == "E2" and f.get("property") == "C16"]
+    viol = 0
+    known = {}
+    seen = set()
+    for v in res["c16"]["verdicts"]:
+        cls = tuple(sorted(v["ops"]))
+        hit = [f for f in kf if tuple(sorted(f["ops"])) == cls]
+        if hit:
+            known[hit[0]["id"]] = hit[0]
+            continue
+        if cls in seen:
+            continue
+        seen.add(cls)
+        viol += 1
+        dd = os.path.join(WORK, "replays")
+        os.makedirs(dd, exist_ok=True)
+        path = os.path.join(dd, "C16-%d.json" % viol)
+        json.dump(dict(v, property="C16", engine="E2"), open(path, "w"))
+        print("VIOLATION property=C16 replay=%s" % path)
+        log("   %s || %s returned %s: no sequential order of the same operations gives these results and this final state" % (v["ops"][0], v["ops"][1], v["res"]))
+    for fid, f in known.items():
+        print("KNOWN-FINDING: property=C16 %s" % f["what"])
+    ev = {"property_id": "C16", "tier": tier, "seed": seed(), "level": "model_checking",
+          "coverage": {"states": max(1, res["c16"]["schedules_generated"]), "transitions": max(1, res["c16"]["schedules_generated"]), "traces_validated_against_impl": res["c16"]["runs"],
+                       "samples": [{"ops": v["ops"], "res": v["res"]} for v in res["c16"]["verdicts"][:4]] or [{"runs": res["c16"]["runs"]}],
+                       "operation_pairs": res["pairs"], "known_findings_hit": sorted(known.keys()),
+                       "explanation": "TLC (spec/locks/Conc.tla) enumerates the one-preemption schedules of every conflicting pair of recorded lock programs; each is executed on real threads under the gating lock shim; results and canonical final state are compared by TLC with the sequential runs of the same operations (all orders; operations that reported ParentElementLocked dropped)"},
+          "assumptions": ["canonical state = serialized text of every file, sorted path index, reverse reference map, invalid reference count (harness/src/conc.rs::canon)", "pairs that deadlock are left to C15"],
+          "wall_s": round(time.time() - t0, 2), "violations": viol}
+    os.makedirs(EVID, exist_ok=True)
+    json.dump(ev, open(os.path.join(EVID, "C16.json"), "w"), indent=1)
+    if res["tool_errors"]:
+        log("TOOL ERRORS: " + "; ".join(res["tool_errors"][:5]))
+        return 1 if viol else 2
+    return 1 if viol else 0
+
+
 # ----------------------------------------------------------------------------------------- E3 grammar engine (C07, C17)
 def e3_types(run, tier):
     """table facts of a seeded sample of element types (thorough: many more), with enumeration focus and versions"""
@@ -1134,6 +1428,10 @@ def main(argv):
             return check_c07(tier)
         if prop == "C17":
             return check_c17(tier)
+        if prop == "C15":
+            return check_c15(tier)
+        if prop == "C16":
+            return check_c16(tier)
         log("unknown property / not claimed: " + prop)
         return 2
     except ToolError as e:
